@@ -404,7 +404,16 @@ Definition sd_step (s : state) (o : op) : state * res :=
             | None => (s, RFail)
             end
           else (s, RFail)
-        | None => (with_cur s (mkSd (s_gattrs c) (s_vars c) (zset (s_dims c) k (mkDim (Some name) (d_size dm)))) true, ROk [])
+        | None =>
+          (* rename; the coordinate variable (scale, attributes) follows the dimension *)
+          let vars' := match coord_of c k with
+                       | Some j => match znth (s_vars c) j with
+                                   | Some v => zset (s_vars c) j (mkVar (Some name) (v_kind v) (v_nt v) (v_dims v) (v_attrs v) (v_scale v))
+                                   | None => s_vars c
+                                   end
+                       | None => s_vars c
+                       end in
+          (with_cur s (mkSd (s_gattrs c) vars' (zset (s_dims c) k (mkDim (Some name) (d_size dm)))) true, ROk [])
         end
       end
     end
